@@ -337,6 +337,9 @@ class Scenario:
                 if n.kind == 'stmt' and isinstance(a, ast.Assign) and len(a.targets) == 1 and isinstance(a.targets[0], ast.Name) \
                         and isinstance(a.value, ast.Constant) and isinstance(a.value.value, (int, str, bool, type(None))):
                     lit.add(a.targets[0].id)
+                elif isinstance(a, ast.AugAssign) and isinstance(a.op, ast.Add) and isinstance(a.value, ast.Constant) \
+                        and isinstance(a.value.value, (int, str)) and not isinstance(a.value.value, bool):
+                    pass        # x += literal keeps a known value known
                 elif n.kind in ('for', 'handler') or isinstance(a, (ast.With, ast.AugAssign, ast.AnnAssign)):
                     other |= set(Flow.bound_names(n))
             self._trk = lit - other - set(self.f.params)
@@ -376,6 +379,12 @@ class Scenario:
                 elif isinstance(a, ast.Assign) and len(a.targets) == 1 and isinstance(a.targets[0], ast.Name) \
                         and isinstance(a.value, ast.Name) and a.value.id in dict(pe):
                     penv[a.targets[0].id] = dict(pe)[a.value.id]
+                elif isinstance(a, ast.AugAssign) and isinstance(a.target, ast.Name) and isinstance(a.op, ast.Add) \
+                        and isinstance(a.value, ast.Constant) and a.target.id in dict(pe):
+                    try:
+                        penv[a.target.id] = dict(pe)[a.target.id] + a.value.value
+                    except TypeError:
+                        pass
             npe = frozenset(penv.items())
             for (m, lab) in cfg.succ[n]:
                 if v is not None and lab in (True, False) and lab != v:
@@ -647,7 +656,7 @@ def class_dict(repo, qual, name):
     vals = K.attrs.get(name)
     if not vals:
         raise AnalysisError('%s.%s has vanished' % (qual, name))
-    d = A.const_value(vals[-1])
+    d = A.fold_value(vals[-1], K.module, K.node)
     if not isinstance(d, dict):
         raise AnalysisError('%s.%s is not a literal dict' % (qual, name))
     return d, vals[-1]
